@@ -83,6 +83,36 @@ def problems():
                 except Boom as e:
                     if e is not boom:
                         out.append("asynchronous method: different exception object")
+        # every keyword name is the caller's to choose: none may collide with a wrapper's own parameter
+        KEYWORDS = ["instance", "function", "owner", "args", "kwargs", "executor", "loop", "context", "func", "method",
+                    "obj", "wrapped", "result", "value", "key", "name", "label", "limit", "timeout", "other"]
+
+        def anykw(*a, **kw):
+            return (a, kw)
+
+        class KwSvc:
+            @asynchronous
+            def m(self, *a, **kw):
+                return (a, kw)
+
+        async def a_anykw(*a, **kw):
+            return (a, kw)
+        af, ksvc, tf, taf, wf = asynchronous(anykw), KwSvc(), traced(anykw), traced(a_anykw), wrap_async(anykw)
+        async with ctx.scope("kw"):
+            for k in KEYWORDS:
+                for label, call in (("asynchronous function", lambda: af(1, **{k: 2})), ("asynchronous method", lambda: ksvc.m(1, **{k: 2})),
+                                    ("traced", lambda: tf(1, **{k: 2})), ("traced async", lambda: taf(1, **{k: 2})),
+                                    ("wrap_async", lambda: wf(1, **{k: 2}))):
+                    try:
+                        r = call()
+                        if hasattr(r, "__await__"):
+                            r = await r
+                        if r != ((1,), {k: 2}):
+                            out.append(f"{label}: called with keyword {k!r} the function received {r}")
+                    except Exception as e:  # noqa
+                        out.append(f"{label}: a call with the keyword argument {k!r} raised {e!r}")
+                if out:
+                    break
         # the loop keeps serving other tasks while the function blocks
         ev = threading.Event()
         ticks = []
